@@ -44,7 +44,7 @@ def describe(tier):
             "traces = executions whose implementation tree was compared with the model tree. Non-trivial = a configuration in "
             "which at least one context was opened AND at least one hit was dropped or decoded (the engine had to do more than "
             "append). 'ties' blocks enumerate only lists already in engine sort order plus all relative orders of equal spans. "
-            "'streams' = the hit streams the shipped decoders produce on every input of the scan-level token families "
+            "every configuration of <= 2 hits is also run through the second public entry point scan_node(Node('', T)) (zero root span). 'streams' = the hit streams the shipped decoders produce on every input of the scan-level token families "
             "(mdmc/families.py), replayed through the same reference machine."
         ),
         "bounds": {k: v for k, v in b.items()},
@@ -132,6 +132,23 @@ def check_run(rec, run: hitx.Run, size):
                       "a node's parent pointer does not name the node whose child list holds it", size)
 
 
+def check_entry_point(rec, T, hits, depth, mode, grouped, model_tup, size):
+    """The same configuration through the other public entry point: scan_node on a node prepared the short way, Node("", T)
+    (start = end = 0).  Only the root's own span differs; its children must be the model's."""
+    from multidecoder.node import Node
+
+    _, ireg = hitx.registries(T, hits, mode, grouped)
+    w = {"engine": "hitx", "T": T, "hits": [list(h) for h in hits], "depth": depth, "mode": mode, "grouped": grouped, "entry": "scan_node"}
+    ok, tree = rec.guard("C06.total", w, size, lambda: Multidecoder(ireg).scan_node(Node("", T), depth))
+    if ok:
+        rec.count("traces")
+        got = trees.tup(tree)[5]
+        if got != model_tup[5]:
+            d = diff(("", T, "", 0, 0, got), ("", T, "", 0, 0, model_tup[5]))
+            rec.violation("C06.tree-equals-model", f"scan_node-entry|{d[1] if d else '?'}", w,
+                          f"scan_node(Node('', T), {depth}) builds children {core.short(got, 200)}; the model (and scan()) give {core.short(model_tup[5], 200)}", size)
+
+
 def run_config(rec, T, hits, depth, mode, grouped):
     size = len(hits) * 100 + max(depth, 0) * 10 + hitx.MODES.index(mode) + (5 if grouped else 0)
     w = {"engine": "hitx", "T": T, "hits": [list(h) for h in hits], "depth": depth, "mode": mode, "grouped": grouped}
@@ -139,6 +156,8 @@ def run_config(rec, T, hits, depth, mode, grouped):
     ok, run = rec.guard("C06.total", w, size, hitx.execute, T, hits, depth, mode, grouped)
     if ok:
         check_run(rec, run, size)
+        if len(hits) <= 2 and not grouped:
+            check_entry_point(rec, T, hits, depth, mode, grouped, run.model.tup(), size)
         return run
     return None
 
@@ -228,7 +247,11 @@ def stream_monitor(rec, case):
 
 def replay(w, rec):
     eng = w.get("engine")
-    if eng == "hitx":
+    if eng == "hitx" and w.get("entry") == "scan_node":
+        T, hits = w["T"], tuple(tuple(h) for h in w["hits"])
+        run = hitx.execute(T, hits, w["depth"], w["mode"], w["grouped"])
+        check_entry_point(rec, T, hits, w["depth"], w["mode"], w["grouped"], run.model.tup(), 0)
+    elif eng == "hitx":
         run_config(rec, w["T"], tuple(tuple(h) for h in w["hits"]), w["depth"], w["mode"], w["grouped"])
     elif eng == "empty-registry":
         special("empty-registry", rec)
